@@ -345,7 +345,8 @@ pub fn run(args: &[String]) -> i32 {
     let tier = report::tier_from_env(args);
     let mut rep = Report::new("C02", &tier);
     controls(&mut rep);
-    let (maxv, keyn) = if rep.thorough() { (3, 7) } else { (2, 4) };
+    // quick: the first five pairs (the fifth is the first whose keys a case conversion would alter: tag_key / content_key)
+    let (maxv, keyn) = if rep.thorough() { (3, 7) } else { (2, 5) };
     let (accs, stats) = explore(
         |ch| {
             gen(ch, maxv, keyn);
@@ -381,7 +382,7 @@ pub fn run(args: &[String]) -> i32 {
 
 pub fn replay(choices: &[u32], thorough: bool) -> i32 {
     let mut ch = Chooser::replay(choices);
-    let (maxv, keyn) = if thorough { (3, 7) } else { (2, 4) };
+    let (maxv, keyn) = if thorough { (3, 7) } else { (2, 5) };
     let c = gen(&mut ch, maxv, keyn);
     let mut acc = Acc::default();
     check_case(&c, choices, &mut acc);
